@@ -90,7 +90,8 @@ func vdrCase(c *Ctx, focus string) {
 		c.Res.Probes["template-program"]++
 	}
 	mode := []string{"rolling", "post", "strict"}[c.Plan.Draw(3)]
-	cfg := &RunCfg{Prog: prog, FCfg: &FCfg{MaxLen: 1 + c.Plan.Draw(3), MaxChunks: c.Plan.Draw(4), Salt: "vdr", AllowNil: c.Plan.Draw(3) == 0, PathStrings: c.Plan.Draw(3) == 0},
+	linked := c.Plan.Draw(4) == 0 && os.Getenv("VERIF_NOLINK") == ""
+	cfg := &RunCfg{Prog: prog, LinkedRoot: linked, CanonicalPaths: linked, FCfg: &FCfg{MaxLen: 1 + c.Plan.Draw(3), MaxChunks: c.Plan.Draw(4), Salt: "vdr", AllowNil: c.Plan.Draw(3) == 0, PathStrings: c.Plan.Draw(3) == 0},
 		MaxSteps: 80000, ExtraFiles: true, LinkDirs: c.Plan.Draw(3) == 0, Companions: c.Plan.Draw(2) == 0, DirOutputs: c.Plan.Draw(3) == 0}
 	cfg.Flags = append(baseFlags(c.Plan), "--vdrmode="+mode)
 	swarmSched(c.Plan, cfg)
@@ -157,7 +158,7 @@ func vdrCase(c *Ctx, focus string) {
 				vos.W.Before = func(ev *vos.Event, data []byte) error {
 					if ev.Site == "storage.go" && (ev.Op == "removeall" || ev.Op == "remove") && ev.PKind == "mrp" &&
 						hash64(rmSalt, ev.Path)%3 == 0 {
-						if _, err := os.Lstat(path.Join(r.Root, ev.Path)); err != nil {
+						if _, err := os.Lstat(r.abs(ev.Path)); err != nil {
 							return nil // nothing there: removing nothing succeeds
 						}
 						r.Faults["removal-fails"]++
@@ -165,7 +166,7 @@ func vdrCase(c *Ctx, focus string) {
 						if hash64(rmSalt, ev.Path, "kind")%2 == 0 {
 							e = syscall.EACCES
 						}
-						return &os.PathError{Op: "unlinkat", Path: path.Join(r.Root, ev.Path), Err: e}
+						return &os.PathError{Op: "unlinkat", Path: r.abs(ev.Path), Err: e}
 					}
 					return nil
 				}
@@ -225,7 +226,7 @@ func vdrCase(c *Ctx, focus string) {
 	var refused []string
 	for _, e := range vos.W.Events {
 		if e.Site == "storage.go" && (e.Op == "removeall" || e.Op == "remove") && e.Err != "" {
-			refused = append(refused, path.Join(r.Root, e.Path))
+			refused = append(refused, r.abs(e.Path))
 		}
 	}
 	undeletable := func(abs string) bool {
@@ -245,7 +246,7 @@ func vdrCase(c *Ctx, focus string) {
 	}
 	// ---- names kept alive by the top level and by retains ----
 	named := map[string]bool{}
-	expTop := top.plain()
+	expTop := r.givenVal(top.plain())
 	collectPaths(expTop, r.PsDir, named)
 	retained := map[string]bool{}
 	for _, in := range ev.Insts {
@@ -253,7 +254,7 @@ func vdrCase(c *Ctx, focus string) {
 			continue
 		}
 		for _, p := range in.Stage.Retain {
-			collectPaths(in.Outs[p], r.PsDir, retained)
+			collectPaths(r.givenVal(in.Outs[p]), r.PsDir, retained)
 		}
 	}
 	// pipeline-level retains: the named output of every instance of the call
@@ -265,7 +266,7 @@ func vdrCase(c *Ctx, focus string) {
 			for _, rt := range pl.Retain {
 				for _, cc := range pl.Calls {
 					if cc == in.Call && rt.Call == cc.Id {
-						collectPaths(in.Outs[rt.Path[0]], r.PsDir, retained)
+						collectPaths(r.givenVal(in.Outs[rt.Path[0]]), r.PsDir, retained)
 					}
 				}
 			}
